@@ -508,3 +508,123 @@ Proof.
   apply IH. apply dbg_step_keeps_safe. exact Hs.
 Qed.
 End SessionSafety.
+
+(* ------------------------------------------------------------------ any sequence of debugger COMMANDS: step, rewind, exec *)
+Section CommandSafety.
+Variable low_s : bytes -> bool.
+Variable tap_tweak_ok : bytes -> bytes -> bytes -> bool -> bool.
+Variable sha256 : bytes -> bytes.
+Variable c : cfg.
+Notation dbg_step := (Session.dbg_step low_s tap_tweak_ok sha256).
+Notation inst_step := (Session.inst_step low_s tap_tweak_ok sha256).
+Notation inst_eval := (Session.inst_eval low_s).
+Notation eval_loop := (Session.eval_loop low_s).
+
+(* a history entry from which rewind can restore a safe environment *)
+Definition hsafe (h : snapshot) : Prop :=
+  h_cb h <> None /\
+  ((c_sigver c =? SV_BASE) || (c_sigver c =? SV_WITNESS_V0) || (c_sigver c =? SV_TAPROOT) = false -> ed_weight_init (h_ed h) = true).
+(* the session invariant: the environment is safe and so is everything rewind can bring back *)
+Definition ssafe (v : ienv) : Prop := safe c (i_e v) /\ Forall hsafe (i_hist v).
+
+Lemma snap_hsafe v : safe c (i_e v) -> hsafe (snap v).
+Proof. intros [Ha Hb]. split; [exact Ha|exact Hb]. Qed.
+
+Lemma setup_env_ssafe : forall script stack succ ed t,
+  ((c_sigver c =? SV_BASE) || (c_sigver c =? SV_WITNESS_V0) || (c_sigver c =? SV_TAPROOT) = false -> ed_weight_init ed = true) ->
+  ssafe (setup_env c script stack succ ed t).
+Proof. intros script stack succ ed t H. split; [apply setup_env_safe; exact H|constructor]. Qed.
+
+Lemma dbg_step_hist : forall v, i_hist (fst (dbg_step c v)) = i_hist v \/ i_hist (fst (dbg_step c v)) = snap v :: i_hist v.
+Proof.
+  intros v. unfold Session.dbg_step.
+  destruct (i_tce v) as [t|].
+  - destruct (tce_iterate tap_tweak_ok sha256 t) as [t' st]. destruct st; left; reflexivity.
+  - destruct (i_pc v) as [|b r] eqn:Epc.
+    + repeat match goal with
+             | |- context [if ?q then _ else _] => destruct q
+             | |- context [match ?q with [] => _ | _ :: _ => _ end] => destruct q
+             end; left; reflexivity.
+    + destruct (step_script low_s c (i_e v) (b :: r) false) as [[e1 pc1] st].
+      destruct st; [right|left|left|left]; reflexivity.
+Qed.
+
+Theorem dbg_step_keeps_ssafe : forall v, ssafe v -> ssafe (fst (dbg_step c v)).
+Proof.
+  intros v [Hs Hh]. split; [apply dbg_step_keeps_safe; exact Hs|].
+  destruct (dbg_step_hist v) as [E|E]; rewrite E; [exact Hh|]. constructor; [apply snap_hsafe; exact Hs|exact Hh].
+Qed.
+
+Theorem dbg_rewind_keeps_ssafe : forall v v', ssafe v -> dbg_rewind v = Some v' -> ssafe v'.
+Proof.
+  intros v v' [Hs Hh] H. unfold dbg_rewind in H.
+  destruct (at_start v); [discriminate|].
+  destruct (i_done v).
+  - inversion H; subst v'. split; [|exact Hh]. destruct Hs as [Ha Hb]. split; [exact Ha|exact Hb].
+  - destruct (i_hist v) as [|h r] eqn:Eh; [discriminate|]. inversion H; subst v'.
+    inversion Hh as [|h0 r0 Hh1 Hr]; subst. destruct Hh1 as [Ha Hb].
+    split; [split; [exact Ha|exact Hb]|exact Hr].
+Qed.
+
+(* exec: the local script runs through the same step function *)
+Lemma eval_loop_safe : forall fuel e it, safe c e ->
+  (forall x, snd (eval_loop fuel c e it) <> SCrash x) /\ safe c (fst (eval_loop fuel c e it)).
+Proof.
+  induction fuel as [|f IH]; intros e it Hs; cbn [Session.eval_loop].
+  - split; [intros x; cbn; discriminate|exact Hs].
+  - destruct it as [|b r]; [split; [intros x; cbn; discriminate|exact Hs]|].
+    pose proof (step_script_no_crash low_s c e (b :: r) true Hs) as Hn.
+    pose proof (step_script_keeps_safe low_s c e (b :: r) true Hs) as Hk.
+    destruct (step_script low_s c e (b :: r) true) as [[e1 it1] st]. cbn [fst snd] in Hn, Hk.
+    destruct st.
+    + apply IH. exact Hk.
+    + split; [intros x; cbn; discriminate|exact Hk].
+    + split; [intros x; cbn; discriminate|exact Hk].
+    + split; [intros x; cbn [snd]; apply Hn|exact Hk].
+Qed.
+
+Theorem inst_eval_safe : forall v s, ssafe v -> (forall x, snd (inst_eval c v s) <> SCrash x) /\ ssafe (fst (inst_eval c v s)).
+Proof.
+  intros v s [Hs Hh]. unfold Session.inst_eval.
+  destruct (eval_loop_safe (S (length s)) (i_e v) s Hs) as [Hn Hk].
+  destruct (eval_loop (S (length s)) c (i_e v) s) as [e1 st]. cbn [fst snd] in *.
+  split; [exact Hn|]. split; [exact Hk|exact Hh].
+Qed.
+
+(* the debugger's commands that touch the environment *)
+Inductive cmd := CStep | CRewind | CExec (local_script : bytes).
+(* one command: the next state and whether the command ended in a crash outcome *)
+Definition run_cmd (v : ienv) (cm : cmd) : ienv * bool :=
+  match cm with
+  | CStep => match inst_step c v with (v1, StepCrash _) => (v1, true) | (v1, _) => (v1, false) end
+  | CRewind => match dbg_rewind v with Some v1 => (v1, false) | None => (v, false) end
+  | CExec s => match inst_eval c v s with (v1, SCrash _) => (v1, true) | (v1, _) => (v1, false) end
+  end.
+Fixpoint run_cmds (v : ienv) (cms : list cmd) : ienv * bool :=
+  match cms with
+  | [] => (v, false)
+  | cm :: r => let '(v1, crashed) := run_cmd v cm in if crashed then (v1, true) else run_cmds v1 r
+  end.
+
+Lemma run_cmd_safe : forall v cm, ssafe v -> snd (run_cmd v cm) = false /\ ssafe (fst (run_cmd v cm)).
+Proof.
+  intros v cm Hs. destruct cm as [| |s]; cbn [run_cmd].
+  - unfold Session.inst_step. destruct (i_done v); [split; [reflexivity|exact Hs]|].
+    pose proof (dbg_step_no_crash low_s tap_tweak_ok sha256 c v (proj1 Hs)) as Hn.
+    pose proof (dbg_step_keeps_ssafe v Hs) as Hk.
+    destruct (dbg_step c v) as [v1 st]. cbn [fst snd] in *.
+    destruct st; cbn [fst snd]; try (split; [reflexivity|exact Hk]). exfalso. eapply Hn. reflexivity.
+  - destruct (dbg_rewind v) as [v1|] eqn:E; cbn [fst snd]; split; try reflexivity; [eapply dbg_rewind_keeps_ssafe; eassumption|exact Hs].
+  - destruct (inst_eval_safe v s Hs) as [Hn Hk].
+    destruct (inst_eval c v s) as [v1 st]. cbn [fst snd] in *.
+    destruct st; cbn [fst snd]; try (split; [reflexivity|exact Hk]). exfalso. eapply Hn. reflexivity.
+Qed.
+
+(* ANY sequence of step / rewind / exec commands from a safe session: no command ends in a crash outcome, and the session stays safe *)
+Theorem commands_never_crash : forall cms v, ssafe v -> snd (run_cmds v cms) = false /\ ssafe (fst (run_cmds v cms)).
+Proof.
+  induction cms as [|cm r IH]; intros v Hs; cbn [run_cmds]; [split; [reflexivity|exact Hs]|].
+  destruct (run_cmd_safe v cm Hs) as [Hc Hk]. destruct (run_cmd v cm) as [v1 crashed]. cbn [fst snd] in *. subst crashed.
+  apply IH. exact Hk.
+Qed.
+End CommandSafety.
